@@ -348,12 +348,15 @@ outer:
 	// a cursor position report which never came is not expected anymore
 	atomicStore(&vx.reqCursorPos, false)
 
+	// The quirks edit the capabilities: they come before the modes are
+	// enabled, so that Suspend, Resume and Close, which consult the same
+	// capabilities, undo and redo exactly what is done here
+	vx.applyQuirks()
 	vx.enterAltScreen()
 	vx.enableModes()
 	if !opts.NoSignals {
 		vx.setupSignals()
 	}
-	vx.applyQuirks()
 
 	switch os.Getenv("VAXIS_GRAPHICS") {
 	case "none":
